@@ -12,7 +12,8 @@ PROPS_FILE = "theories/Props/C12.v"
 EXTRACT = ("theories/Extract/XC12.v", "c12", ["entry_agree_in", "entry_agree_out", "entry_ref"])
 PYX = {"_filter.pyx": ["masked_convolution"]}
 CASE_TIMEOUT = 60
-RULE = ("every listed function x every optional-parameter variant it offers x image shapes (1x1 .. 14x14 skewed to tiny, plus "
+RULE = ("240 (thorough 3000) reference-model cases (scipy.ndimage correlate/convolve/binary and grey erosion/dilation on "
+        "random small integer arrays and kernels, compared exactly with Model.MaskRef); then every listed function x every optional-parameter variant it offers x image shapes (1x1 .. 14x14 skewed to tiny, plus "
         "strips 70-600 x 1-5) x mask classes (random, thin lines, frame, single-pixel holes, masked-out runs ON the border, "
         "one-pixel spokes reaching the border, all-False, all-True, blob) x image dtype (float64/32, int64/32/16, uint8/16 "
         "incl. extremes, bool) x layout of image and of mask (C, Fortran, strided view, read-only) x mask dtype "
@@ -21,11 +22,16 @@ RULE = ("every listed function x every optional-parameter variant it offers x im
         "masked-out pixel and the base output is not constant inside the mask; distinct by hash of the case")
 TRUSTED = [
     "translator tools/gen_maskflow_c12.py (symbolic evaluation of the Python AST -> mask-dataflow program with shared "
-    "definitions, fail-closed; 39 of the 40 functions) and the one hand-written term of tools/maskflow_hand_c12.py "
-    "(regional_maximum, over an abstract structure) pinned to a normalised-AST hash (tools/maskflow_pins_c12.json)",
+    "definitions, fail-closed; all 42 programs: the 40 functions the property names + masked_convolution and branchings) "
+    "and ONE hand-written loop summary in tools/maskflow_hand_c12.py (the loop of regional_maximum over the structure's "
+    "offsets with clipped slice bounds, as LocS/ErodeS over an abstract structure) pinned to the normalised hash of that "
+    "loop only (tools/maskflow_pins_c12.json)",
     "library-symbol locality table of gen_maskflow_c12.py (the interface the theorems quantify over): POINTWISE NumPy "
     "ufuncs/astype/copy; convolve with a literal kxk kernel local with radius k//2 (reflect border reads stay within "
-    "that radius); binary_erosion(m, generate_binary_structure(2,2), border_value=0) = Erode 1; GLOBAL = pure functions "
+    "that radius) and binary_erosion(m, generate_binary_structure(2,2), border_value=0) = Erode 1 - both tied to the "
+    "executable reference models of Model/MaskRef.v (locality and guarantee proved in Proofs/MaskRefLocal.v, the "
+    "models compared with scipy.ndimage correlate/convolve/binary_erosion/binary_dilation/grey_erosion/grey_dilation "
+    "on random integer arrays on every run); GLOBAL = pure functions "
     "of their array arguments (table_lookup, scind.grey_erosion/dilation, gaussian_filter, label, "
     "distance_transform_edt, rank_order, lstsq, index_lookup, helper functions of the three modules, a user-supplied "
     "smoothing function); in-place kernels skeletonize_loop / _filter.median_filter write only their declared argument; "
@@ -41,8 +47,7 @@ TRUSTED = [
     "enumerates x at p + start(s1) - start(s2) over the true pixels p of m in m's order whenever the code combines it "
     "elementwise with a vector gathered by m (NumPy raises otherwise); dtype conversions of a mask keep its truthiness",
     "modelled, not verified: arrays as total functions on Z*Z; determinism of NumPy/SciPy (two runs on equal data give "
-    "equal bits); regional_maximum's hand term: the structure is an abstract offset set, the tie-break an opaque pure "
-    "function of the ties pass",
+    "equal bits); regional_maximum's loop summary: the structure is an abstract offset set",
 ]
 ASSUMPTIONS = ["image and mask have the same 2-d shape; mask is boolean; the smoothing function handed to "
                "smooth_with_function_and_mask is pure"]
@@ -810,20 +815,25 @@ def shrink_candidates(case):
 
 MANIFEST = {
     "level_text": (
-        "Machine-checked proof (Coq 8.16): a mask-dataflow language (pointwise / radius-local / pure library symbols, "
-        "mask erosion, select-by-mask, the concrete masked-convolution kernel) with a radius checker proved sound for "
-        "EVERY interpretation of the library symbols that respects the declared locality: an accepted program is "
-        "non-interfering inside the mask, a program ending in `result[~mask] = image[~mask]` returns its input outside. "
-        "On every run a fail-closed translator turns the staged source of the 40 listed functions into such programs "
-        "(39 by symbolic evaluation of the Python AST into DAG programs, regional_maximum hand-written over an abstract structure and pinned to its normalised-AST hash) and the "
-        "kernel re-checks that every one is accepted (and that the 15 binary operations restore). Dynamically every "
-        "function and optional-parameter variant is run on (img, mask) and on images differing outside the mask; the "
-        "outputs are compared bit for bit inside the mask (binary family: also outside against the input) through the "
-        "extracted verified checker."),
+        "Machine-checked proof (Coq 8.16): a mask-dataflow language (programs with shared definitions; pointwise / "
+        "radius-local / footprint-local / pure library symbols, mask erosion, select-by-mask, the concrete masked-"
+        "convolution kernel) with a dependence checker proved sound for EVERY interpretation of the library symbols that "
+        "respects the declared locality: an accepted program is non-interfering inside the mask, a program ending every "
+        "path in `result[~mask] = image[~mask]` returns its input outside. On every run a fail-closed symbolic evaluator "
+        "translates the staged source of all 42 masked operations (the 40 the property names, masked_convolution, "
+        "branchings) into such programs - no hand-written term; one loop of regional_maximum has a hand-written summary "
+        "pinned to that loop - and the kernel re-checks that every program is accepted (and that the 15 binary "
+        "operations restore), incl. regional_maximum for every structure. The locality the table assumes of "
+        "scipy.ndimage correlate/convolve and binary/grey erosion/dilation is proved for executable reference models "
+        "(radius = footprint extent, constant and reflect borders) that are compared with SciPy on every run. "
+        "Dynamically every function and optional-parameter variant is run on (img, mask) and on images differing outside "
+        "the mask; outputs are compared bit for bit inside the mask (binary family: also outside against the input) "
+        "through the extracted verified checker."),
     "level_note": (
-        "Trusted: Coq kernel + vm_compute; the AST translator and the hand terms; the locality table of NumPy/SciPy "
-        "symbols (the theorems quantify over all interpretations satisfying it); extraction (ExtrOcamlBasic only). The "
-        "tie between terms and code is by translation, not a proof about Python."),
+        "Trusted: Coq kernel + vm_compute; the symbolic evaluator, its NumPy identities and the one loop summary; the "
+        "locality table of NumPy/SciPy symbols (the theorems quantify over all interpretations satisfying it; for "
+        "correlate/convolve and erosion/dilation it is additionally tied to reference models checked against SciPy); "
+        "extraction (ExtrOcamlBasic only). The tie between programs and code is by translation, not a proof about Python."),
     "technique": "Coq proof of a dataflow checker + per-run AST translation of the source + two-run differential oracle",
     "design_ref": "DESIGN.md section 7, C12",
 }
